@@ -325,7 +325,10 @@ class World:
         else:
             live = [m for m in self.p.modules if m is not None]
             m = self.rng.choice(live)
-            note.mod = m
+            if self.rng.random() < 0.5:
+                note.mod = m
+            else:
+                note.module = int(m)        # int(module) is documented as the number to put into a pattern
             if note.module != m.index + 1 or note.mod is not m:
                 self.res.violation("C14:note-mod-set", f"note.mod = module at {m.index}: note.module={note.module}, note.mod={note.mod!r}", {"history": self.history[-40:]})
                 return False
